@@ -10,4 +10,5 @@ open Emboss.Text
 #print axioms C06_struct_roundtrip_counterexample
 #print axioms C06_emission_order
 #print axioms C06_emission_after_dependencies
+#print axioms C06_emission_after_transitive_dependencies
 #print axioms C06_array_multiline_counterexample
